@@ -1,50 +1,65 @@
 (* Specification side of C10: include resolution as a depth-first traversal with an
    inclusion STACK (a cycle is an include of a file that is currently being included) and a
-   LOADED set (a file reached again along another acyclic path is silently not loaded twice). *)
+   LOADED set (a file reached again along another acyclic path is silently not loaded twice).
+   The depth limit is the largest number of files on an inclusion path (the root counts), the
+   unit the implementation's limit is expressed in; of several reasons to refuse one include the
+   first of: on the stack, already loaded, too deep, missing, too large is the one reported. *)
 From HL Require Import Lib.Bytes Model.Loader.
 Open Scope N_scope.
 
-Record rout := mkRout { ro_order : list N; ro_errs : list lerr; ro_loaded : list N;
-                        ro_again : bool;   (* some include named an already loaded file not on the stack *)
-                        ro_deep : bool }.  (* the depth limit was hit *)
+(* No cache, no journal objects: the order in which files are loaded, the diagnostics, and the set
+   of loaded files.  The inclusion stack is a parameter (pushed for the includes of a file, popped
+   by returning), the loaded set is threaded through. *)
+Record rout := mkRout { ro_order : list N; ro_errs : list lerr; ro_loaded : list N }.
 
-Fixpoint ref_load (fuel : nat) (fs : fsys) (L : limits) (depth : N) (stack : list N)
-                  (dirs : list directive) (loaded : list N) : option rout :=
+Definition with_err (e : lerr) (o : option rout) : option rout :=
+  match o with
+  | Some r => Some (mkRout (ro_order r) (e :: ro_errs r) (ro_loaded r))
+  | None => None
+  end.
+
+Definition rrecT := N -> list directive -> list N -> list N -> option rout.   (* file, its directives, stack, loaded *)
+
+Fixpoint ref_items (rec : rrecT) (fs : fsys) (L : limits) (stk : list N) (items : list (N * option N))
+                   (loaded : list N) : option rout :=
+  match items with
+  | [] => Some (mkRout [] [] loaded)
+  | (line, None) :: rest => with_err (mkErr ENotFound 999999 line) (ref_items rec fs L stk rest loaded)
+  | (line, Some q) :: rest =>
+      if memN q stk then with_err (mkErr ECycle q line) (ref_items rec fs L stk rest loaded)
+      else if memN q loaded then ref_items rec fs L stk rest loaded
+      else if max_depth L <=? N.of_nat (length stk) then with_err (mkErr ETooDeep q line) (ref_items rec fs L stk rest loaded)
+      else match flookup q fs with
+           | None => with_err (mkErr ENotFound q line) (ref_items rec fs L stk rest loaded)
+           | Some f =>
+               if max_size L <? f_size f then with_err (mkErr ETooLarge q line) (ref_items rec fs L stk rest loaded)
+               else match rec q (f_dirs f) stk loaded with
+                    | None => None
+                    | Some sub =>
+                        match ref_items rec fs L stk rest (ro_loaded sub) with
+                        | None => None
+                        | Some r => Some (mkRout (q :: ro_order sub ++ ro_order r) (ro_errs sub ++ ro_errs r) (ro_loaded r))
+                        end
+                    end
+           end
+  end.
+
+(* follow the includes of file p (directives dirs): p goes on the stack and into the loaded set *)
+Fixpoint ref_load (fuel : nat) (fs : fsys) (L : limits) (p : N) (dirs : list directive)
+                  (stk : list N) (loaded : list N) : option rout :=
   match fuel with
   | O => None
-  | S fuel' =>
-      (fix go (items : list (N * option N)) (order : list N) (errs : list lerr) (loaded : list N)
-              (again deep : bool) {struct items} : option rout :=
-         match items with
-         | [] => Some (mkRout order errs loaded again deep)
-         | (line, None) :: rest => go rest order (errs ++ [mkErr ENotFound 999999 line]) loaded again deep
-         | (line, Some q) :: rest =>
-             if memN q stack then go rest order (errs ++ [mkErr ECycle q line]) loaded again deep
-             else if memN q loaded then go rest order errs loaded true deep
-             else match flookup q fs with
-                  | None => go rest order (errs ++ [mkErr ENotFound q line]) loaded again deep
-                  | Some f =>
-                      if max_size L <? f_size f then go rest order (errs ++ [mkErr ETooLarge q line]) loaded again deep
-                      else if max_depth L <? depth + 1 then go rest order (errs ++ [mkErr ETooDeep q line]) loaded again true
-                      else match ref_load fuel' fs L (depth + 1) (q :: stack) (f_dirs f) (q :: loaded) with
-                           | None => None
-                           | Some sub =>
-                               go rest (order ++ q :: ro_order sub) (errs ++ ro_errs sub) (ro_loaded sub)
-                                  (again || ro_again sub) (deep || ro_deep sub)
-                           end
-                  end
-         end)
-        (dir_items fs dirs)
-        [] [] loaded false false
+  | S fuel' => ref_items (ref_load fuel' fs L) fs L (p :: stk) (dir_items fs dirs) (p :: loaded)
   end.
 
 Definition ref_root (fs : fsys) (L : limits) (root : N) (override : option file) : option rout :=
   let rf := match override with Some f => Some f | None => flookup root fs end in
   match rf with
-  | None => Some (mkRout [] [mkErr ENotFound root 0] [] false false)
+  | None => Some (mkRout [] [mkErr ENotFound root 0] [])
   | Some f =>
-      if max_size L <? f_size f then Some (mkRout [] [mkErr ETooLarge root 0] [] false false)
-      else ref_load (fuel_for fs) fs L 0 [root] (f_dirs f) [root]
+      if max_size L <? f_size f then Some (mkRout [] [mkErr ETooLarge root 0] [])
+      else if max_depth L <=? 0 then Some (mkRout [] [mkErr ETooDeep root 0] [])
+      else ref_load (fuel_for fs) fs L root (f_dirs f) [] []
   end.
 
 (* ---- helpers to compare results as sets / multisets ---- *)
